@@ -147,7 +147,10 @@ def operator(signature, precedence, associativity, awaited=True, pure=True, toke
     def decorator(fn):
         Class.fn = fn
         Class.__name__ = fn.__name__
-        Class.return_type = typing.get_type_hints(fn).get("return")
+        # Operators that are only valid as part of an addressing mode ('#x',
+        # '@x', '%x', 'x+', 'x-', 'a(b)') are not annotated; used as a value they
+        # report an error and stand for their (integer) operand
+        Class.return_type = typing.get_type_hints(fn).get("return") or int
         return Class
 
     return decorator
